@@ -31,6 +31,11 @@ type jlog struct {
 	From  int    `json:"from"`
 	To    int    `json:"to"` // inclusive; -1 = whole file
 	After []jrec `json:"after,omitempty"`
+	// what the process that appends After does with the topic BEFORE its first append, in one engine
+	// object: a string over r (ReadAll) and s (StreamAll); "" = the append is its first access
+	Pre string `json:"pre,omitempty"`
+	// it also reads (ReadAll) between its appends
+	Mid bool `json:"mid,omitempty"`
 }
 
 const (
@@ -78,32 +83,69 @@ type readOut struct {
 	msgs     []storage.LogMessage
 }
 
-func readBoth(dir string) (ra, sa readOut) {
-	st := openLog(dir)
+// readWith: one read of the topic through an open engine object; kind 'r' ReadAll, 's' StreamAll
+func readWith(st dvid.Store, kind byte) (out readOut) {
 	rl := st.(storage.ReadLog)
-	p, _ := lib.Recover(func() {
-		m, err := rl.ReadAll(logData, logVersion)
-		ra.msgs, ra.err = m, err != nil
-	})
-	ra.panicked = p
-	st.Close()
-
-	st = openLog(dir)
-	rl = st.(storage.ReadLog)
+	if kind == 'r' {
+		p, _ := lib.Recover(func() {
+			m, err := rl.ReadAll(logData, logVersion)
+			out.msgs, out.err = m, err != nil
+		})
+		out.panicked = p
+		return
+	}
 	ch := make(chan storage.LogMessage, 16)
 	done := make(chan struct{})
 	go func() {
 		for m := range ch {
-			sa.msgs = append(sa.msgs, storage.LogMessage{EntryType: m.EntryType, Data: append([]byte{}, m.Data...)})
+			out.msgs = append(out.msgs, storage.LogMessage{EntryType: m.EntryType, Data: append([]byte{}, m.Data...)})
 		}
 		close(done)
 	}()
-	p, _ = lib.Recover(func() {
+	p, _ := lib.Recover(func() {
 		err := rl.StreamAll(logData, logVersion, ch)
-		sa.err = err != nil
+		out.err = err != nil
 	})
-	sa.panicked = p
+	if p {
+		// the channel is closed by StreamAll on its regular paths only
+		lib.Recover(func() { close(ch) })
+	}
+	out.panicked = p
 	<-done
+	return
+}
+
+func readBoth(dir string) (ra, sa readOut) {
+	st := openLog(dir)
+	ra = readWith(st, 'r')
+	st.Close()
+	st = openLog(dir)
+	sa = readWith(st, 's')
+	st.Close()
+	return
+}
+
+// reopenAppend: ONE engine object (one process after the crash) reads the topic as pre says, then
+// appends recs (reading in between when mid).  Returns the last pre-read of each kind.
+func reopenAppend(dir, pre string, mid bool, recs []jrec) (lastR, lastS *readOut) {
+	st := openLog(dir)
+	for i := 0; i < len(pre); i++ {
+		o := readWith(st, pre[i])
+		if pre[i] == 'r' {
+			lastR = &o
+		} else {
+			lastS = &o
+		}
+	}
+	wl := st.(storage.WriteLog)
+	for _, r := range recs {
+		if err := wl.Append(logData, logVersion, storage.LogMessage{EntryType: r.T, Data: r.D}); err != nil {
+			fatal("append: %v", err)
+		}
+		if mid {
+			readWith(st, 'r')
+		}
+	}
 	st.Close()
 	return
 }
@@ -191,14 +233,39 @@ func runLog(run *lib.Run, c jlog) {
 		to = len(file)
 	}
 	bd := lib.NewBinder()
-	var segs []string
-	var last string
-	count := 0
-	flush := func() {
-		if count > 0 {
-			segs = append(segs, fmt.Sprintf("(%d%%nat, %s)", count, last))
-		}
+	// run-length encoded observations, one accumulator per emitted case
+	type acc struct {
+		segs  []string
+		last  string
+		count int
+		after []jrec
 	}
+	add := func(a *acc, rcap int, ra, sa readOut) {
+		rt, rshape := compress(bd, c.Recs, a.after, ra, a.count)
+		stt, sshape := compress(bd, c.Recs, a.after, sa, a.count)
+		run.Count("ReadAll:" + rshape)
+		run.Count("StreamAll:" + sshape)
+		cur := fmt.Sprintf("%d%%nat, %s, %s", rcap, rt, stt)
+		if a.count > 0 && cur == a.last {
+			a.count++
+			return
+		}
+		if a.count > 0 {
+			a.segs = append(a.segs, fmt.Sprintf("(%d%%nat, %s)", a.count, a.last))
+		}
+		rt, _ = compress(bd, c.Recs, a.after, ra, 0)
+		stt, _ = compress(bd, c.Recs, a.after, sa, 0)
+		a.last, a.count = fmt.Sprintf("%d%%nat, %s, %s", rcap, rt, stt), 1
+	}
+	flush := func(a *acc) string {
+		if a.count > 0 {
+			a.segs = append(a.segs, fmt.Sprintf("(%d%%nat, %s)", a.count, a.last))
+			a.count = 0
+		}
+		return strings.Join(a.segs, "; ")
+	}
+	final := &acc{after: c.After}
+	pre := &acc{} // what the appending process itself read before its first append (a plain torn-log read)
 	cut := filepath.Join(base, "cut")
 	for n := c.From; n <= to; n++ {
 		os.RemoveAll(cut)
@@ -207,37 +274,48 @@ func runLog(run *lib.Run, c jlog) {
 			fatal("%v", err)
 		}
 		if len(c.After) > 0 {
-			appendAll(cut, c.After)
+			if c.Pre != "" {
+				fr, fs := readBoth(cut) // the kind the process does not read is read by a process of its own
+				lr, ls := reopenAppend(cut, c.Pre, c.Mid, c.After)
+				if lr != nil {
+					fr = *lr
+				}
+				if ls != nil {
+					fs = *ls
+				}
+				add(pre, readerCap(n), fr, fs)
+			} else {
+				reopenAppend(cut, "", c.Mid, c.After)
+			}
 		}
 		st, _ := os.Stat(logFile(cut))
 		ra, sa := readBoth(cut)
-		rcap := readerCap(int(st.Size()))
-		rt, rshape := compress(bd, c.Recs, c.After, ra, count)
-		stt, sshape := compress(bd, c.Recs, c.After, sa, count)
-		run.Count("ReadAll:" + rshape)
-		run.Count("StreamAll:" + sshape)
-		cur := fmt.Sprintf("%d%%nat, %s, %s", rcap, rt, stt)
-		if count > 0 && cur == last {
-			count++
-		} else {
-			flush()
-			rt, _ = compress(bd, c.Recs, c.After, ra, 0)
-			stt, _ = compress(bd, c.Recs, c.After, sa, 0)
-			last, count = fmt.Sprintf("%d%%nat, %s, %s", rcap, rt, stt), 1
-		}
+		add(final, readerCap(int(st.Size())), ra, sa)
 	}
-	flush()
 	run.Dist["offsets"] += to - c.From + 1
 	kind := "log-truncate"
 	if len(c.After) > 0 {
 		kind = "log-append-after-cut"
+		if c.Pre != "" || c.Mid {
+			kind = "log-read-then-append-after-cut"
+		}
 	}
 	sizes := make([]string, len(c.Recs))
 	for i, r := range c.Recs {
 		sizes[i] = fmt.Sprint(len(r.D))
 	}
-	term := bd.Wrap(fmt.Sprintf("CLog %s %d%%nat %s [%s]", coqRecs(bd, c.Recs), c.From, coqRecs(bd, c.After), strings.Join(segs, "; ")))
-	run.Add(kind, term, c, fmt.Sprintf("%s/%s/%d-%d/%d", kind, strings.Join(sizes, ","), c.From, to, len(c.After)))
+	mid := ""
+	if c.Mid {
+		mid = "+mid"
+	}
+	term := bd.Wrap(fmt.Sprintf("CLog %s %d%%nat %s [%s]", coqRecs(bd, c.Recs), c.From, coqRecs(bd, c.After), flush(final)))
+	run.Add(kind, term, c, fmt.Sprintf("%s/%s/%d-%d/%d/%s%s", kind, strings.Join(sizes, ","), c.From, to, len(c.After), c.Pre, mid))
+	if c.Pre != "" {
+		term := bd.Wrap(fmt.Sprintf("CLog %s %d%%nat [] [%s]", coqRecs(bd, c.Recs), c.From, flush(pre)))
+		cp := c
+		cp.Name += "/reads-before-the-append"
+		run.Add("log-read-before-append", term, cp, fmt.Sprintf("log-read-before-append/%s/%d-%d/%s", strings.Join(sizes, ","), c.From, to, c.Pre))
+	}
 	// the writer's framing, literally (ties Model.FileLog.encode to fileLogs.Append)
 	if len(file) <= 64 && len(c.After) == 0 && c.From == 0 {
 		bd2 := lib.NewBinder()
@@ -277,6 +355,20 @@ func genLogs(run *lib.Run, o lib.Opts, rng *lib.Rand) {
 		Recs:  []jrec{{1, []byte{11, 12, 13}}, {2, []byte{21, 22, 23, 24, 25, 26, 27, 28}}, {3, nil}},
 		After: []jrec{{4, []byte{41, 42}}, {5, []byte{51}}}})
 
+	// the process after the crash reads the topic before its first append (what labelmap's start-up
+	// does), in every order of its first accesses, for every torn length
+	small := []jrec{{1, []byte{11, 12, 13}}, {2, []byte{21, 22, 23, 24, 25, 26, 27, 28}}, {3, nil}}
+	for _, v := range []struct {
+		pre string
+		mid bool
+	}{{"r", false}, {"s", false}, {"rr", false}, {"sr", false}, {"rs", true}, {"", true}} {
+		runLog(run, jlog{Kind: "log", Name: "read-then-append-after-cut-" + v.pre, To: -1, Pre: v.pre, Mid: v.mid,
+			Recs: small, After: []jrec{{4, []byte{41, 42}}, {5, []byte{51}}}})
+	}
+	// a longer torn record (header + part of a payload that is longer than the appended records)
+	runLog(run, jlog{Kind: "log", Name: "read-then-append-after-long-cut", To: -1, Pre: "s",
+		Recs: []jrec{{7, patterned(9, 40)}, {8, patterned(8, 25)}}, After: []jrec{{4, []byte{41, 42}}, {5, nil}, {6, patterned(6, 30)}}})
+
 	n := 8
 	if o.Thorough() {
 		n = 120
@@ -314,6 +406,11 @@ func genLogs(run *lib.Run, o lib.Opts, rng *lib.Rand) {
 		}
 		if tot <= 80 {
 			c.After = []jrec{{T: uint16(rng.Intn(65536)), D: rng.Bytes(rng.Intn(12))}}
+			if rng.Bool() {
+				c.After = append(c.After, jrec{T: uint16(rng.Intn(65536)), D: rng.Bytes(rng.Intn(40))})
+			}
+			c.Pre = []string{"", "r", "s", "rs", "sr", "ss"}[rng.Intn(6)]
+			c.Mid = rng.Chance(0.3)
 		}
 		runLog(run, c)
 	}
